@@ -62,7 +62,9 @@ type World struct {
 	// Pivot (with Locality): every window starts or ends at one fixed key, so that this key is again
 	// and again the biggest key of one table and the smallest of another, on the same or on adjacent
 	// levels (the pickers compare table boundaries, which carry versions).
-	Pivot  bool
+	Pivot bool
+	// NoWide (with Locality): never draw a wide window, so that tables stay small and disjoint
+	NoWide bool
 	winLo  int
 	sorted [][]byte
 }
@@ -249,7 +251,7 @@ func (w *World) Flush() bool {
 	}
 	if w.Locality > 0 {
 		w.winLo = w.R.Intn(len(w.Keys))
-		if w.R.Intn(3) == 0 { // sometimes a wide table spanning the others
+		if w.R.Intn(3) == 0 && !w.NoWide { // sometimes a wide table spanning the others
 			w.Locality = 2 + w.R.Intn(len(w.Keys))
 		} else {
 			w.Locality = 2 + w.R.Intn(4)
